@@ -45,8 +45,16 @@ func runC09(s *kernel.Sim) {
 	wins := []int{1, 2, 3, 5, 10, 60, 7, 13, 1000}
 	pcts := []int{1000, 500, 333, 250, 100, 0, 667, 15}
 	var rems []*c09remedy
+	// a quarter of the runs use large allowances and arbitrary whole percentages, and
+	// fill a group's share to the brim: the share is ceil(allowed * percentage / 100)
+	// in exact arithmetic
+	precise := tp.Chance(1, 4)
+	s.Knobs["precise_shares"] = precise
 	for i := 0; i < nRem; i++ {
 		r := &c09remedy{name: fmt.Sprintf("rem%d", i), allowed: int64(tp.Range(1, 5)), winS: wins[tp.Choose(len(wins))]}
+		if precise {
+			r.allowed = int64([]int{10, 20, 60, 100, 150, 7, 33}[tp.Choose(7)])
+		}
 		if tp.Chance(1, 3) {
 			r.status = []int{429, 503, 418}[tp.Choose(3)]
 		}
@@ -67,6 +75,9 @@ func runC09(s *kernel.Sim) {
 			}
 			r.def = []string{"", "allow", "block", "use_default_allocation"}[tp.Choose(4)]
 			r.defPct10 = pcts[tp.Choose(len(pcts))]
+			if precise {
+				r.defPct10 = 10 * tp.Range(1, 100)
+			}
 			ga.Default = r.def
 			ga.DefaultAllocationPercentage = float64(r.defPct10) / 10
 			cfg.GroupQuotaAllocation = ga
@@ -335,6 +346,25 @@ func runC09(s *kernel.Sim) {
 			counts[key]++
 		} else {
 			s.Nontrivial()
+		}
+		if precise && exact && !fuzzy[key] && tp.Chance(1, 2) {
+			// fill the share at this instant: exactly lim requests pass in the window
+			for counts[key] < lim+1 && !s.Failed() {
+				n++
+				fv := call(r, grp, fmt.Sprintf("t%d", n))
+				if fv.pass && counts[key] >= lim {
+					s.Violate("R1", "window-exceeded", "remedy %s group %q: request %d of grid window %d passed, its share is ceil(%d * %v%%) = %d", r.name, grp, counts[key]+1, k, r.allowed, float64(r.pct10[grp])/10, lim)
+					break
+				}
+				if !fv.pass {
+					if counts[key] < lim {
+						s.Violate("R2", "spurious-rejection", "remedy %s group %q: rejected after %d passes in grid window %d, its share is %d", r.name, grp, counts[key], k, lim)
+					}
+					break
+				}
+				counts[key]++
+			}
+			s.FaultFired("share_filled_to_the_brim")
 		}
 	}
 }
